@@ -1,7 +1,7 @@
 PROP = dict(
     properties="Properties/C14.v",
     harness_mods=["Harness/C14.v"],
-    runs=[dict(cmd="c14", quick=480, thorough=6000, timeout=3000)],
+    runs=[dict(cmd="c14", quick=480, thorough=20000, timeout=3000)],
     trusted_base=[
         "hand-written Gallina source semantics coq/Lang/MiniGo.v of the fragment (ints, bools, scoped locals, && || short-circuit, if/for/break/continue/return, calls, recursion); tied to the Go toolchain by the 'frag' runs (go build of the printed program)",
         "hand-written Gallina target machine coq/Lang/Target.v (subset of NeoVM); tied to pkg/vm by running the real compiler's bytecode on both in the 'frag' runs",
@@ -19,6 +19,6 @@ PROP = dict(
     modelled="theorem: the MiniGo fragment through the model compiler to the target machine; correspondence only: real compiler = model compiler on generated fragment programs, and the whole rest of the dialect (strings, byte slices, slices, maps, structs, pointers, methods, switch, range, labels, multiple results, globals/init, defer/recover, inlining, lambdas) by differential testing against go build; manifest/debug info by direct checks",
 )
 META = dict(
-    text="PARTIAL. Proved in Coq (no axioms): a model compiler that follows codegen.go's scheme (slot allocation, condition jumps incl. && || chains, loop labels for break/continue, call convention with argument reversal and INITSLOT) for a fragment of the dialect (unbounded-range-checked ints, bools, block-scoped locals and arguments, arithmetic/comparison/short-circuit expressions, assignment forms, if/else, three-clause for, break, continue, return, calls with recursion) is correct: for every program, function and argument tuple, if the big-step source run is defined (value or division by zero, no 64-bit overflow) the compiled code on the NeoVM-subset machine halts with exactly that value, and faults iff the source faults; source results do not depend on fuel. Carried by correspondence only (not by theorem): that the real compiler emits the model compiler's instruction sequence and that the Coq machine agrees with pkg/vm (checked per generated fragment program), and the whole rest of the documented dialect - strings and byte slices, slices, maps, structs through pointers and methods, switch/range/labels, multiple results, globals and init order, defer/recover, inlined helpers, lambdas - which is checked only by differential testing of compiler+VM against `go build` of the same source, plus direct manifest/debug-info checks (offsets are instruction boundaries, INITSLOT arity = parameter count, ABI types). Nine constructs on which the unchanged compiler differs from Go are recorded as known findings and excluded from generation.",
+    text="PARTIAL. Proved in Coq (no axioms): a model compiler that follows codegen.go's scheme (slot allocation, condition jumps incl. && || chains, loop labels for break/continue, call convention with argument reversal and INITSLOT) for a fragment of the dialect (unbounded-range-checked ints, bools, block-scoped locals and arguments, arithmetic/comparison/short-circuit expressions, assignment forms, if/else, three-clause for, break, continue, return, calls with recursion) is correct: for every program, function and argument tuple, if the big-step source run is defined (value or division by zero, no 64-bit overflow) the compiled code on the NeoVM-subset machine halts with exactly that value, and faults iff the source faults; source results do not depend on fuel. Carried by correspondence only (not by theorem): that the real compiler emits the model compiler's instruction sequence and that the Coq machine agrees with pkg/vm (checked per generated fragment program), and the whole rest of the documented dialect - strings and byte slices, slices, maps, structs through pointers and methods, switch/range/labels, multiple results, globals and init order, defer/recover, inlined helpers, lambdas - which is checked only by differential testing of compiler+VM against `go build` of the same source, plus direct manifest/debug-info checks (offsets are instruction boundaries, INITSLOT arity = parameter count, ABI types). Thirteen defects of the unchanged compiler found by this check (F141-F153: lambda argument order, switch default/fallthrough, struct value copies, string ordering, absent map keys, initialisation order, four defer/recover/init defects, concatenated strings being Buffers, an inliner scoping defect) are recorded as known findings with reproductions in corpus/C14 (repairs ready for three) and the constructs are excluded from generation.",
     note="Trusted: Coq kernel and vm_compute; the hand-written MiniGo semantics, target machine and model compiler (tied to go build, pkg/vm and pkg/compiler by the correspondence only); the Go harness (generator, bytecode decoder, canonical result rendering); the Go toolchain as reference. Assumes no 64-bit overflow, VM resource limits not reached, deterministic programs (Go's unspecified evaluation orders avoided). Non-termination is not covered by the theorem (forward simulation for terminating runs only).",
 )
